@@ -125,7 +125,7 @@ def coreExp : PExp → Bool
     | none => false
   | .var n => plainVar n
   | .cvar n idx => isPlainRun n.toList && !idx.isEmpty && coreIdx idx
-  | .access n idx => isPlainRun n.toList && !idx.isEmpty && coreList idx
+  | .access n idx => isPlainRun n.toList && n != "not" && !idx.isEmpty && coreList idx
   | .call n args => !(isRangeSugar n args) && n != "not" && isFunctionName n && coreList args
   | .block k es => Gen.blockKinds.any (fun e => e.2 == k) && (blockKindErr k es.length).isNone && !es.isEmpty && coreList es
   | .scoped k vs its b =>
